@@ -140,13 +140,13 @@ class TermCx:
             muts = None  # a value of an opaque type parameter (the caller's rng): its internal state is not modelled
         if muts:
             ops = []
-            for (bb, term, idx) in muts:
+            for (bb, term, idx, path) in muts:
                 ci = callee_of(term)
                 nm = ci.get("name") if ci else "?"
                 if ci and (ci.get("trait") or "").endswith("::Iterator"):
                     continue  # consuming an iterator is not an update of a collection
                 others = tuple(self.operand(a) for j, a in enumerate(term["args"]) if j != idx)
-                ops.append(("op", nm, others, self.site(bb)))
+                ops.append(("op", nm, others, self.site(bb), path))
             if ops:
                 t = ("mut", t, tuple(ops))
         self.busy.discard(l)
@@ -305,11 +305,21 @@ def proj_key(p):
 
 _simple_cache = {}
 
+# Workspace functions that the rule tables refer to *by name* stay opaque (named) calls even though they are
+# branch-free; every other branch-free function without higher-order calls (getters, constructors, converters and any
+# newly extracted private helper) is transparent, whatever its size — so extracting or inlining a helper does not
+# change the terms the rules see.
+NOINLINE = {"cmp", "randomize", "tweak", "challenge", "nonce_generate_from_random_bytes", "compute_signature_share",
+            "default_sign", "tagged_hash", "fmt"}
+
 
 def simple_wrapper(f):
-    """branch-free, loop-free, at most 3 calls, no assert: getters, newtype constructors, to_scalar..."""
+    """branch-free, loop-free, no assert, no higher-order calls: getters, newtype constructors, to_scalar, helpers"""
     if f.key in _simple_cache:
         return _simple_cache[f.key]
+    if f.name in NOINLINE:
+        _simple_cache[f.key] = False
+        return False
     ok = f.has_body
     ncalls = 0
     if ok:
@@ -321,10 +331,9 @@ def simple_wrapper(f):
             if t["k"] == "call":
                 ncalls += 1
                 ci = callee_of(t)
-                if ci and ((ci.get("trait") or "").endswith("::Iterator") or ci.get("closures") and
-                           ci.get("name") not in ("map_err", "ok_or_else", "unwrap_or_else")):
-                    ok = False  # iterator pipelines / higher-order calls stay opaque (named) calls
-    if ncalls > 6:
+                if ci and (ci.get("closures") and ci.get("name") not in ("map_err", "ok_or_else", "unwrap_or_else")):
+                    ok = False  # higher-order calls (closures) stay opaque (named) calls
+    if ncalls > 40:
         ok = False
     _simple_cache[f.key] = ok
     return ok
@@ -358,6 +367,14 @@ def simp(t):
                 if k == (name,):
                     return v
             return simp(("field", base[1], adt, name))
+        if base[0] == "mut":
+            # in-place updates through a reference to this field (or to the whole value) travel with the field
+            inner = simp(("field", base[1], adt, name))
+            ops = tuple(("op", o[1], o[2], o[3], o[4][1:]) for o in base[2] if len(o) > 4 and o[4] and o[4][0] == name)
+            whole = tuple(o for o in base[2] if len(o) <= 4 or not o[4])
+            if ops or whole:
+                return ("mut", inner, ops + whole)
+            return inner
     return t
 
 
@@ -376,7 +393,12 @@ def okval(r):
 def subterms(t):
     yield t
     if isinstance(t, tuple):
-        for x in t[1:]:
+        rest = t[1:]
+        if t and t[0] == "op":
+            rest = (t[2],)          # (name, args, site, field path): only the arguments are terms
+        elif t and t[0] == "call":
+            rest = (t[2],)
+        for x in rest:
             if isinstance(x, tuple):
                 # tuples of terms or (name, term) pairs
                 if x and isinstance(x[0], str) and x[0] in _HEADS:
